@@ -430,9 +430,10 @@ def c08 (m : StreamMon) (cfg : Cfg) (op : Op) (o : OpObs) : Bool × StreamMon :=
     | [] => (ok, { m with atts := [] })
     | a :: rest => (ok && (a.prompt != cfg.prompt || detachOk a), { m with atts := rest })
   | .streamExitAt k =>
-    match atts.find? (·.id == k) with
-    | none => (ok, { m with atts := atts })
-    | some a => (ok && (a.prompt != cfg.prompt || detachOk a), { m with atts := atts.eraseP (·.id == k) })
+    (ok && (match atts.find? (·.id == k) with
+            | none => true
+            | some a => a.prompt != cfg.prompt || detachOk a),
+     { m with atts := atts.eraseP (·.id == k) })
   | _ => (ok, { m with atts := atts })
 
 /-- C08 at the level of its consumers (`exec()` command events): the text logged into the command's
